@@ -401,4 +401,40 @@ def redRun [DecidableEq τ] (d : Decl τ) (pub : List τ) : RedState τ α → L
     | .ok s' => redRun d pub s' ops
     | .error e => .error e
 
+/-! ## a `PKPDModel`'s dosing regimen across solver rebuilds -/
+
+/-- operations on a `PKPDModel` that touch its solver or its regimen (`ρ`: regimens) -/
+inductive DoseOp (ρ : Type) where
+  /-- `enable_sensitivities(enabled[, names])`; `set_outputs` ends with `enable_sensitivities(False)` -/
+  | sens (enabled : Bool)
+  /-- `set_dosing_regimen(...)` -/
+  | setRegimen (r : ρ)
+
+structure DoseState (ρ : Type) where
+  /-- `has_sensitivities()` -/
+  sensOn : Bool
+  /-- `dosing_regimen()` -/
+  regimen : Option ρ
+  /-- the protocol the current `myokit.Simulation` integrates with -/
+  solver : Option ρ
+
+/-- `SBMLModel.enable_sensitivities`: builds a new solver (which has no protocol) unless the
+    sensitivities are off and stay off -/
+def sbmlSens {ρ : Type} (s : DoseState ρ) (enabled : Bool) : DoseState ρ :=
+  if enabled || s.sensOn then { s with sensOn := enabled, solver := none } else s
+
+/-- `PKPDModel.enable_sensitivities` decides BEFORE the call of the base class whether a new solver
+    is going to be built, and hands the regimen to the new solver afterwards;
+    `set_dosing_regimen` stores the regimen and hands it to the current solver -/
+def doseStep {ρ : Type} (s : DoseState ρ) : DoseOp ρ → DoseState ρ
+  | .sens enabled =>
+    let newSim := enabled || (!enabled && s.sensOn)
+    let s1 := sbmlSens s enabled
+    if newSim then { s1 with solver := s1.regimen } else s1
+  | .setRegimen r => { s with regimen := some r, solver := some r }
+
+def doseRun {ρ : Type} : DoseState ρ → List (DoseOp ρ) → DoseState ρ
+  | s, [] => s
+  | s, op :: ops => doseRun (doseStep s op) ops
+
 end ChiModel.Mech
